@@ -84,11 +84,9 @@ class Rule(Expression):
         start = state.pos
         state.rule_stack.push(self)
         children: list[Pair] = []
+        implicit = self.name in ("COMMENT", "WHITESPACE")
 
-        if self.modifier & (ATOMIC | COMPOUND) or self.name in (
-            "COMMENT",
-            "WHITESPACE",
-        ):
+        if self.modifier & (ATOMIC | COMPOUND) or implicit:
             with state.atomic_checkpoint():
                 state.atomic_depth += 1
                 matched = self.expression.parse(state, children)
@@ -104,16 +102,17 @@ class Rule(Expression):
         if not matched:
             return False
 
+        if self.modifier & ATOMIC or (implicit and not self.modifier & COMPOUND):
+            # Atomic rules silence children, and so do COMMENT and WHITESPACE,
+            # which are implicitly atomic.
+            children = atomic_children(children)
+
         if self.modifier & SILENT:
             # Children without an enclosing Pair.
             pairs.extend(children)
             return True
 
         tag: str | None = state.tag_stack.pop() if state.tag_stack else None
-
-        if self.modifier & ATOMIC:  # TODO: COMMENT and WHITESPACE too?
-            # Atomic rule silences children
-            children = atomic_children(children)
 
         pairs.append(
             Pair(
@@ -143,11 +142,9 @@ class Rule(Expression):
 
             inner_pairs = gen.new_temp("children")
             gen.writeln(f"{inner_pairs}: list[Pair] = []")
+            implicit = self.name in ("COMMENT", "WHITESPACE")
 
-            if self.modifier & (ATOMIC | COMPOUND) or self.name in (
-                "COMMENT",
-                "WHITESPACE",
-            ):
+            if self.modifier & (ATOMIC | COMPOUND) or implicit:
                 gen.writeln("with state.atomic_checkpoint():")
                 with gen.block():
                     gen.writeln("state.atomic_depth += 1")
@@ -164,6 +161,12 @@ class Rule(Expression):
 
             children: str = inner_pairs
 
+            if self.modifier & ATOMIC or (implicit and not self.modifier & COMPOUND):
+                # Atomic rules silence children, and so do COMMENT and
+                # WHITESPACE, which are implicitly atomic.
+                gen.writeln(f"# Atomic rule: {self.name!r}")
+                children = f"atomic_children({inner_pairs})"
+
             if self.modifier & SILENT:
                 gen.writeln(f"# Silent rule {self.name!r}")
                 gen.writeln(f"if {matched_var}:")
@@ -172,10 +175,6 @@ class Rule(Expression):
                 gen.writeln(f"return {matched_var}")
             else:
                 tag_var = gen.new_temp("tag")
-
-                if self.modifier & ATOMIC:  # TODO: COMMENT and WHITESPACE too?
-                    gen.writeln(f"# Atomic rule: {self.name!r}")
-                    children = f"atomic_children({inner_pairs})"
 
                 pair = (
                     f"Pair("
